@@ -208,6 +208,20 @@ fn do_write(cx: &mut Cx, op: &str, kind: gix_object::Kind, data: &[u8], how: &st
             op,
         ),
     }
+    // the `EarlyOutput` clause of Props.C11.header_only_complete on the real zlib: the first 192 bytes of the file
+    // yield at least 28 bytes of content (given room)
+    if let Ok(z) = std::fs::read(&path) {
+        if z.len() > 192 {
+            let mut inf = gix_features::zlib::Inflate::default();
+            let mut out64 = [0u8; 64];
+            let produced = inf.once(&z[..192], &mut out64).map(|(_, _, o)| o).unwrap_or(0);
+            cx.rep.oracle_checked();
+            cx.rep.bucket(if produced >= 28 { "early-output:first-192-bytes-yield>=28" } else { "early-output:VIOLATED" });
+            if produced < 28 {
+                cx.rep.note(&format!("CONTRACT EarlyOutput: the first 192 bytes of the file gitoxide wrote for {op} inflate to only {produced} bytes"));
+            }
+        }
+    }
     if h_obs != format!("ok:{}:{}", data.len(), kind) {
         cx.rep.oracle_failure(&format!("header {op}"), &format!("try_header of the written object says {h_obs}"), op);
     }
